@@ -74,6 +74,8 @@ TRUSTED = {
     'C13': _BASE + [_CHR + "hnl (a line feed is whitespace)"],
     'C14': _BASE + [_NUM + 'NumLaws.cmp_swap, NumLaws.beq_cmp (partial_cmp and == are consistent), int_exact (integer addition exact up to 2^53) for build/knock'],
     'C15': _BASE + [_CHR + 'hlow (is_lowercase c -> to_lowercase c = [c]), hidem (lower-casing idempotent per character), hfix/hup (ASCII letters fold to ASCII lower case)',
-                    'str::to_lowercase is modelled per character (final-sigma rule ignored; it cannot produce an ASCII keyword)'],
+                    'str::to_lowercase is modelled per character (final-sigma rule ignored; it cannot produce an ASCII keyword)',
+                    "text level (Thm/C15Lex): AsciiLaws (the 52 ASCII letters are alphabetic, not numeric, not whitespace, lower-case to their ASCII lower case: kernel-checked for the generated tables), hparse (f64 FromStr ignores ASCII letter case: e/E, inf, nan; validated by the num requests of the correspondence run), hkw (decided on the regenerated keyword table)",
+                    "a re-casing, for the text-level theorems, is an ASCII re-casing that keeps the places of 'n' / 's / 're, the contents of string literals and poetic strings, and whether each word starts with a capital (proper names are grouped by capitalisation: by design); two re-casings the property's wording might suggest are harmless are NOT (findings F3: `'N'` is not the `'n'` separator; `'S` / `'RE` directly after a string, number or comment is not the apostrophe suffix)"],
     'C20': _BASE + ['process creation, clap argument parsing, stdout buffering, colour codes and exit status are runtime behaviour: decided by running the built binary, not by a theorem'],
 }
